@@ -46,9 +46,9 @@ def _guard(fn):
         try:
             return fn()
         except ksmt.AnchorMissing as e:
-            return {"verdict": "ERROR", "detail": "anchor missing: %s" % e}
+            return {"verdict": "NOT-ENCODED", "detail": "anchor missing: %s" % e}
         except ksmt.Unsupported as e:
-            return {"verdict": "ERROR", "detail": "kernel uses a construct outside the KSMT subset: %s" % e}
+            return {"verdict": "NOT-ENCODED", "detail": "kernel uses a construct outside the KSMT subset: %s" % e}
 
     return run
 
@@ -218,7 +218,12 @@ def c12_span_agrees():
                 blk = n
         if blk is None:
             raise ksmt.AnchorMissing("doShrink block in %s.eraseRegion" % cls.__name__)
-        asg = [st for st in ast.walk(blk) if isinstance(st, ast.Assign) and len(st.targets) == 1 and isinstance(st.targets[0], ast.Name) and st.targets[0].id in ("diff", "newMax")]
+        # straight-line assignments of the block to plain names whose right-hand side is
+        # arithmetic over names/attributes (diff = end - start, newMax = ... - diff, whatever they are called)
+        def _arith(e):
+            return all(isinstance(x, (ast.BinOp, ast.UnaryOp, ast.Name, ast.Attribute, ast.Constant, ast.operator, ast.unaryop, ast.expr_context)) for x in ast.walk(e))
+
+        asg = [st for st in blk.body if isinstance(st, ast.Assign) and len(st.targets) == 1 and isinstance(st.targets[0], ast.Name) and _arith(st.value)]
         asg.sort(key=lambda st: st.lineno)
 
         def env_t():
@@ -389,13 +394,14 @@ def c16_index(rate, width):
         from praatio import audio
 
         fdef = ksmt.func_ast(audio.Wav._getIndexAtTime)
-        ret = ksmt.find_return(fdef)
         t = z3.FP("t", ksmt.F64)
 
         def make_env():
             return {"startTime": t, "self": ksmt.Rec(["frameRate", "sampleWidth"], frameRate=rate, sampleWidth=width)}
 
-        paths = ksmt.explore([ret], make_env)
+        # the whole body (docstring skipped), so that named intermediates are followed
+        body = [st for st in fdef.body if not (isinstance(st, ast.Expr) and isinstance(st.value, ast.Constant))]
+        paths = ksmt.explore(body, make_env)
         assume = [z3.fpLEQ(ksmt.fpv(0.0), t), z3.fpLEQ(t, ksmt.fpv(TWO20))]
         claims = []
         prod = z3.fpMul(ksmt.RNE, t, ksmt.fpv(rate))
